@@ -83,19 +83,19 @@ theorem rmEntries_shrinks (p : Path) :
 end Loop3
 
 theorem rmRec_shrinks (root : Bool) : ∀ (f : Nat) (s : FS) (p : Path), p ≠ [] → Canon s p →
-    isHardAt s p = false → Shrinks s (rmRec root f s p).2 := by
+    Shrinks s (rmRec root f s p).2 := by
   intro f
   induction f with
-  | zero => intro s p _ _ _; exact Shrinks.refl _
+  | zero => intro s p _ _; exact Shrinks.refl _
   | succ f ih =>
-    intro s p hne hc hnh
+    intro s p hne hc
     unfold rmRec
     cases lstat_canon root s p hne hc with
     | access h => rw [h]; exact Shrinks.refl _
     | absent h _ => rw [h]; exact Shrinks.refl _
     | here v h hv =>
       rw [h]
-      have main : ∀ (_ : isLinkAt s p = false), Shrinks s
+      have main : ∀ (_ : isLinkAt s p = false) (hnh : isHardAt s p = false), Shrinks s
           (match chmod root s p 0o777 with
             | .error e => (Except.error e, s)
             | .ok fs1 =>
@@ -105,7 +105,7 @@ theorem rmRec_shrinks (root : Bool) : ∀ (f : Nat) (s : FS) (p : Path), p ≠ [
                 match rmEntries root (fun s q => rmRec root f s q) p entries fs1 with
                 | (.error e, fs2) => (Except.error e, fs2)
                 | (.ok _, fs2) => lift fs2 (rmdir root fs2 p)).2 := by
-        intro hl
+        intro hl hnh
         cases chmod_canon root s p 0o777 hne hc hl hnh with
         | failed e hch _ _ => rw [hch]; exact Shrinks.refl _
         | done v0 v' hch hv0 hdir hlink =>
@@ -127,11 +127,11 @@ theorem rmRec_shrinks (root : Bool) : ∀ (f : Nat) (s : FS) (p : Path), p ≠ [
             rw [hrd]
             simp only
             have hfr := rmEntries_frame root (fun s q => rmRec root f s q)
-              (fun s q hq hcq hdq => rmRec_untouched root f s q hq hcq (isHardAt_of_isDirAt hdq))
+              (fun s q hq hcq _ => rmRec_untouched root f s q hq hcq)
               p es (fset s p v') hc1 hd1 hnd hdirs
             have hsh := rmEntries_shrinks root (fun s q => rmRec root f s q)
-              (fun s q hq hcq hdq => rmRec_untouched root f s q hq hcq (isHardAt_of_isDirAt hdq))
-              (fun s q hq hcq hdq => ih s q hq hcq (isHardAt_of_isDirAt hdq))
+              (fun s q hq hcq _ => rmRec_untouched root f s q hq hcq)
+              (fun s q hq hcq _ => ih s q hq hcq)
               p es (fset s p v') hc1 hd1 hnd hdirs
             generalize rmEntries root (fun s q => rmRec root f s q) p es (fset s p v') = r at hfr hsh
             obtain ⟨res, s2⟩ := r
@@ -144,9 +144,9 @@ theorem rmRec_shrinks (root : Bool) : ∀ (f : Nat) (s : FS) (p : Path), p ≠ [
               exact (hs1.trans hsh).trans (rmdir_shrinks root s2 p hne hc2)
       cases v with
       | link t => simp only; exact unlink_shrinks root s p hne hc
-      | file m c => exact main (by simp [isLinkAt, hv])
-      | hard i m c => simp [isHardAt, hv] at hnh
-      | dir m => exact main (by simp [isLinkAt, hv])
+      | file m c => simp only; exact unlink_shrinks root s p hne hc
+      | hard i m c => simp only; exact unlink_shrinks root s p hne hc
+      | dir m => exact main (by simp [isLinkAt, hv]) (by simp [isHardAt, hv])
 
 /-- every recorded path is shorter than `bound` -/
 def Shorter (s : FS) (bound : Nat) : Prop := ∀ k, (fget s k).isSome = true → k.length < bound
@@ -211,23 +211,23 @@ end Loop4
 
 /-- with a budget exceeding the length of every recorded path below `p`, the recursion never runs out of budget -/
 theorem rmRec_ne_fuel (root : Bool) : ∀ (f : Nat) (s : FS) (p : Path), p ≠ [] → Canon s p →
-    isHardAt s p = false → (fget s p).isSome = true → Shorter s (p.length + f) →
+    (fget s p).isSome = true → Shorter s (p.length + f) →
     (rmRec root f s p).1 ≠ .error .fuel := by
   intro f
   induction f with
   | zero =>
-    intro s p _ _ _ hs hshort
+    intro s p _ _ hs hshort
     have := hshort p hs
     omega
   | succ f ih =>
-    intro s p hne hc hnh hs hshort
+    intro s p hne hc hs hshort
     unfold rmRec
     cases lstat_canon root s p hne hc with
     | access h => rw [h]; intro e; cases e
     | absent h hn => rw [hn] at hs; cases hs
     | here v h hv =>
       rw [h]
-      have main : ∀ (_ : isLinkAt s p = false),
+      have main : ∀ (_ : isLinkAt s p = false) (hnh : isHardAt s p = false),
           (match chmod root s p 0o777 with
             | .error e => (Except.error e, s)
             | .ok fs1 =>
@@ -237,7 +237,7 @@ theorem rmRec_ne_fuel (root : Bool) : ∀ (f : Nat) (s : FS) (p : Path), p ≠ [
                 match rmEntries root (fun s q => rmRec root f s q) p entries fs1 with
                 | (.error e, fs2) => (Except.error e, fs2)
                 | (.ok _, fs2) => lift fs2 (rmdir root fs2 p)).1 ≠ .error .fuel := by
-        intro hl
+        intro hl hnh
         cases chmod_canon root s p 0o777 hne hc hl hnh with
         | failed e hch _ hf => rw [hch]; intro heq; exact hf (by simpa using heq)
         | done v0 v' hch hv0 hdir hlink =>
@@ -262,12 +262,12 @@ theorem rmRec_ne_fuel (root : Bool) : ∀ (f : Nat) (s : FS) (p : Path), p ≠ [
             rw [hrd]
             simp only
             have hfr := rmEntries_frame root (fun s q => rmRec root f s q)
-              (fun s q hq hcq hdq => rmRec_untouched root f s q hq hcq (isHardAt_of_isDirAt hdq))
+              (fun s q hq hcq _ => rmRec_untouched root f s q hq hcq)
               p es (fset s p v') hc1 hd1 hnd hdirs
             have hnf' := rmEntries_ne_fuel root (fun s q => rmRec root f s q) (p.length + 1 + f) p
-              (fun s q hq hcq hdq => rmRec_untouched root f s q hq hcq (isHardAt_of_isDirAt hdq))
-              (fun s q hq hcq hdq => rmRec_shrinks root f s q hq hcq (isHardAt_of_isDirAt hdq))
-              (fun s x hcq hdq hsq hshq => ih s (p ++ [x]) (by simp) hcq (isHardAt_of_isDirAt hdq) hsq (by simpa using hshq))
+              (fun s q hq hcq _ => rmRec_untouched root f s q hq hcq)
+              (fun s q hq hcq _ => rmRec_shrinks root f s q hq hcq)
+              (fun s x hcq _ hsq hshq => ih s (p ++ [x]) (by simp) hcq hsq (by simpa using hshq))
               es (fset s p v') hc1 hd1 hnd hpres hdirs hshort1
             generalize rmEntries root (fun s q => rmRec root f s q) p es (fset s p v') = r at hfr hnf'
             obtain ⟨res, s2⟩ := r
@@ -282,9 +282,9 @@ theorem rmRec_ne_fuel (root : Bool) : ∀ (f : Nat) (s : FS) (p : Path), p ≠ [
               | erased hrm _ => rw [hrm]; intro heq; cases heq
       cases v with
       | link t => simp only; exact lift_ne_fuel_unlink root s p hne hc
-      | file m c => exact main (by simp [isLinkAt, hv])
-      | hard i m c => simp [isHardAt, hv] at hnh
-      | dir m => exact main (by simp [isLinkAt, hv])
+      | file m c => simp only; exact lift_ne_fuel_unlink root s p hne hc
+      | hard i m c => simp only; exact lift_ne_fuel_unlink root s p hne hc
+      | dir m => exact main (by simp [isLinkAt, hv]) (by simp [isHardAt, hv])
 
 theorem fget_len_le_max {s : FS} {k : Path} (h : (fget s k).isSome = true) : k.length ≤ maxKeyLen s := by
   induction s with
@@ -333,17 +333,13 @@ theorem unlinkAll_ne_fuel (root : Bool) (d : Name) : ∀ (names : List Name) (s 
 /-- `delete_layer` in the model never fails for lack of recursion budget -/
 theorem deleteLayer_ne_fuel (root : Bool) (t : FS) (n : Name) (hd : isDirAt t [layersName] = true) :
     (deleteLayer root t n).1 ≠ .error .fuel := by
-  cases hh : isHardAt t (layerPath n) with
-  | true => rcases deleteLayer_hard_fails root t n hd hh with h | h <;> · rw [h]; intro e; cases e
-  | false =>
-  have hnh := hh
   have hc : Canon t (layerPath n) := canon_pair t _ _ hd
   have hne := layerPath_ne n
   have hrm : (rmRec root (depthFuel t) t (layerPath n)).1 ≠ .error .fuel := by
     cases hg : fget t (layerPath n) with
     | none => exact rmRec_absent_fst root _ t _ hne hc hg
     | some v =>
-      apply rmRec_ne_fuel root _ t _ hne hc hnh (by simp [hg])
+      apply rmRec_ne_fuel root _ t _ hne hc (by simp [hg])
       intro k hk
       have := fget_len_le_max hk
       simp only [depthFuel, layerPath, List.length_cons, List.length_nil]
@@ -351,7 +347,7 @@ theorem deleteLayer_ne_fuel (root : Bool) (t : FS) (n : Name) (hd : isDirAt t [l
   rcases deleteLayer_cases root t n with ⟨h, _⟩ | ⟨h, _⟩
   · rw [h]; exact hrm
   · rw [h]
-    have hu := rmRec_untouched root (depthFuel t) t (layerPath n) hne hc hnh
+    have hu := rmRec_untouched root (depthFuel t) t (layerPath n) hne hc
     have hd1 := layersDir_of_frame (n := n) (frame_of_untouched hu) hd
     have := unlinkAll_ne_fuel root layersName (ownNames n) _ hd1
     rw [ownNames_paths] at this
